@@ -239,3 +239,17 @@ for _c in list(_REG):
             _c2.prop = _prop
             _c2.name = _prop + '/pdu.' + _short
             _REG.append(_c2)
+
+# the numeric TLVs (VERSION, MIUX, WKS, LTO, RW, OPT) as every PDU decoder reads them: the value handed on is the
+# independent reading of the value octets - reserved bits never leak into a MIU, a window or an option field.
+# Obligation of C11 (decoding agrees with an independent reading), C10/C19 (the peer's MIUX is what the sending
+# limits are built from) and C07.
+for _prop in ('C11', 'C10', 'C19', 'C07'):
+    contract(P + 'Parameter.decode', _prop,
+             dict(data=Bytes(0, 64), offset=Int(0, 60), size=Opt(Int(0, 64))),
+             name='%s/Parameter.decode.numeric' % _prop,
+             requires=['len(data) >= offset + 2', 'data[offset] in (1, 2, 3, 4, 5, 7)'],
+             ensures=[('O-tlv.value', 'result[0] == data[offset] and result[1] == data[offset + 1] and '
+                                      'result[2] == tlv_numeric(data[offset], data[offset + 2:offset + 2 + data[offset + 1]])'),
+                      ('O-tlv.length', 'result[1] == (2 if data[offset] in (2, 3) else 1)')],
+             raises={DE: []})
